@@ -37,8 +37,10 @@ FUNCTIONS = [
     "magpylib._src.input_checks:check_format_input_orientation",
     "magpylib._src.input_checks:check_format_input_axis",
     "magpylib._src.input_checks:check_format_input_angle",
+    "magpylib._src.obj_classes.class_BaseGeo:BaseGeo._init_position_orientation",
 ]
 BOUNDS = [
+    "constructor: Sensor / Dipole / Collection built with position of length 1-3 and 1-3 symbolic unit quaternions (any sign of the scalar part)",
     "old path length N in 1..3 (quick) / 1..5 (thorough), input length in {scalar,1,2,3} (thorough: ..5), start in [-5,5] (quick) / [-9,9] (thorough) plus 'auto'; "
     "anchors {None, 0, single vector, per-step}; path contents, displacements, rotations, anchors symbolic (all reals / unit quaternions)",
     "one operation from an arbitrary state (inductive step); longer paths outside the claim",
@@ -69,6 +71,7 @@ def cases(tier, seed):
             out.append({"id": f"{op}-N{N}", "kind": "step", "op": op, "N": N, "weight": 3})
     for N in _Ns(tier):
         out.append({"id": f"setters-N{N}", "kind": "setters", "N": N, "weight": 2})
+    out.append({"id": "constructor", "kind": "ctor", "weight": 2})
     out.append({"id": "rotate_from-forms", "kind": "forms", "weight": 3})
     out.append({"id": "rejected-calls", "kind": "rejected", "weight": 1})
     return out
@@ -108,7 +111,7 @@ def _state_ok(obj):
 
 def run_case(case, info):
     C = Case(case, info)
-    {"step": _step, "setters": _setters, "forms": _forms, "rejected": _rejected}[case["kind"]](C)
+    {"step": _step, "setters": _setters, "forms": _forms, "rejected": _rejected, "ctor": _ctor}[case["kind"]](C)
     return C.result()
 
 
@@ -237,6 +240,45 @@ def _setters(C):
             C.oblige(f"{which}.N{N}->M{M}", CTX.pc + unit, z3.Or(neq_any(gotP, expP), neq_rot(gotQ, expQ)),
                      on_model=lambda env, rp=rp: {"key": f"C09|{which}|values", "replay": dict(rp, env=env)}, inputs=inputs, nice=False, quat_groups=qg,
                      sample=f"{which} with path length {M} on an object of path length {N}: the other path is edge-padded / end-sliced")
+
+
+def _ctor(C):
+    """position / orientation given to the constructor are the stored path: same rotation (any quaternion sign, any scalar part), the shorter of
+    the two edge-padded to the longer, for Sensor, a source and a Collection"""
+    import magpylib
+
+    makers = {"Sensor": lambda **kw: magpylib.Sensor(**kw), "Dipole": lambda **kw: magpylib.misc.Dipole(moment=(1, 2, 3), **kw),
+              "Collection": lambda **kw: magpylib.Collection(**kw)}
+    for cls, mk in makers.items():
+        for NP, NQ in ((1, 1), (2, 2), (3, 1), (1, 3), (2, 3)):
+            if cls != "Sensor" and (NP, NQ) not in ((1, 1), (2, 3)):
+                continue
+            CTX.reset([])
+            P = symarr("cp", (NP, 3))
+            rot, unit = symrot("cq", None if NQ == 1 else NQ)
+            inputs = list(P.ravel()) + list(rot.q.ravel())
+            rp = {"kind": "ctor", "cls": cls, "NP": NP, "NQ": NQ}
+            C.concrete_trace(replay, dict(rp, env={}), f"C09|constructor|{cls}|concrete")
+            try:
+                obj = mk(position=P.copy() if NP > 1 else P[0].copy(), orientation=rot)
+            except Exception as e:  # noqa
+                C.obligations.append({"name": f"ctor.{cls}.{NP}.{NQ}.returns", "status": "sat", "note": f"raised {type(e).__name__}: {e}"})
+                C.candidates.append({"key": f"C09|constructor|{cls}|raises", "replay": dict(rp, env={})})
+                continue
+            C.paths += 1
+            L = max(NP, NQ)
+            gotP = np.asarray(obj._position, dtype=object)
+            gotQ = np.asarray(obj._orientation.as_quat(), dtype=object).reshape(-1, 4)
+            if gotP.shape != (L, 3) or gotQ.shape != (L, 4):
+                C.obligations.append({"name": f"ctor.{cls}.{NP}.{NQ}.length", "status": "sat", "note": f"{gotP.shape},{gotQ.shape} expected length {L}"})
+                C.candidates.append({"key": f"C09|constructor|{cls}|length", "replay": dict(rp, env={})})
+                continue
+            expP = np.array([P[min(i, NP - 1)] for i in range(L)], dtype=object)
+            expQ = np.array([rot.q[min(i, NQ - 1)] for i in range(L)], dtype=object)
+            C.oblige(f"ctor.{cls}.pos{NP}.ori{NQ}", CTX.pc + unit, z3.Or(neq_any(gotP, expP), neq_rot(gotQ, expQ)), inputs=inputs, nice=False,
+                     quat_groups=[list(r) for r in rot.q], key=f"C09|constructor|{cls}",
+                     on_model=lambda env, rp=rp: {"key": f"C09|constructor|{rp['cls']}", "replay": dict(rp, env=env)},
+                     sample=f"{cls}(position=({NP},3), orientation={NQ} rotations): stored path of length {L} equals the input, shorter one edge-padded")
 
 
 def _forms(C):
@@ -465,6 +507,35 @@ def replay(spec):
             if not rel_close(newP[i], ep, 1e-9, 1e-12) or (newQ[i] * eq.inv()).magnitude() > 1e-9:
                 return True, f"{op} N={N} n_in={n_in} start={start}: entry {i} is pos {newP[i].tolist()} expected {np.asarray(ep).tolist()} (derives from old entry {src[i]}, input applies on {rng_})"
         return False, "path semantics hold in doubles"
+    if kind == "ctor":
+        import magpylib
+
+        rng = np.random.default_rng(29)
+        g = lambda k: env[k] if env.get(k) is not None else float(rng.normal())
+        NP, NQ, cls = spec["NP"], spec["NQ"], spec["cls"]
+        mk = {"Sensor": lambda **kw: magpylib.Sensor(**kw), "Dipole": lambda **kw: magpylib.misc.Dipole(moment=(1, 2, 3), **kw),
+              "Collection": lambda **kw: magpylib.Collection(**kw)}[cls]
+        P = np.array([[g(f"cp_{i}_{c}") for c in range(3)] for i in range(NP)])
+        msgs = []
+        # the model's quaternion and, in any case, quaternions with negative scalar part / rotations beyond half a turn
+        qs = [np.array([[g(f"cq_{i}_{c}") if NQ > 1 else g(f"cq_{c}") for c in range(4)] for i in range(NQ)])]
+        qs.append(np.array([[0.5, -0.5, 0.5, -0.5], [0.1, 0.2, 0.3, -0.9], [0.6, 0.0, 0.0, 0.8]][:NQ] + [[0.0, 0.6, 0.0, -0.8]] * max(0, NQ - 3)))
+        for q in qs:
+            q = q / np.linalg.norm(q, axis=1)[:, None]
+            rot = R.from_quat(q if NQ > 1 else q[0])
+            try:
+                obj = mk(position=P if NP > 1 else P[0], orientation=rot)
+            except Exception as e:  # noqa
+                return True, f"{cls}(position ({NP},3), orientation {NQ}) raised {type(e).__name__}: {e}"
+            L = max(NP, NQ)
+            expP = np.array([P[min(i, NP - 1)] for i in range(L)])
+            expQ = R.from_quat(np.array([q[min(i, NQ - 1)] for i in range(L)]))
+            if obj._position.shape != (L, 3) or len(obj._orientation) != L:
+                msgs.append(f"path length {obj._position.shape[0]},{len(obj._orientation)} expected {L}")
+            elif not np.array_equal(obj._position, expP) or np.max((obj._orientation * expQ.inv()).magnitude()) > 1e-9:
+                msgs.append(f"{cls}(position={P.tolist()}, orientation=quat {q.tolist()}): stored position {obj._position.tolist()}, stored quaternions "
+                            f"{obj._orientation.as_quat().tolist()}")
+        return bool(msgs), "; ".join(msgs[:1]) or "constructor stores position and orientation faithfully"
     if kind == "setter":
         which, N, M = spec["which"], spec["N"], spec["M"]
         obj, P, Q, g = _float_obj(N, env)
